@@ -9,6 +9,7 @@
 #include "nmtools/array/view/pooling.hpp"
 #include "nmtools/array/view/ufuncs/add.hpp"
 #include "nmtools/array/view/ufuncs/multiply.hpp"
+#include "nmtools/array/view/ufuncs/maximum.hpp"
 #include "nmtools/array/functional/sum.hpp"
 
 namespace c13 {
@@ -18,6 +19,13 @@ C13_CASE(slice_2d, C13_DTYPES_ALL, 6, { Shape s{(size_t)dim_at(d, 0, 1, 6), (siz
     auto v = view::slice(a, nmtools_tuple{nm::None, nm::None, st0}, nmtools_tuple{b1, e1}); EVAL(v); })
 C13_CASE(slice_reversed, C13_DTYPES_ALL, 5, { Shape s{(size_t)dim_at(d, 0, 1, 6), (size_t)dim_at(d, 1, 1, 6)}; auto a = make_operand<T>(s, r, 0); auto v = view::slice(a, nmtools_tuple{nm::None, nm::None, -1}, nmtools_tuple{nm::None, nm::None}); EVAL(v); })
 C13_CASE(reduce_add_two_axes, C13_DTYPES_ALL, 5, { auto s = shape_nd(d, 0); if (s.size() < 2) s.push_back(2); auto a = make_operand<T>(s, r, 0); nmtools_array<int, 2> axes{0, (int)s.size() - 1}; auto v = view::reduce_add(a, axes); EVAL(v); })
+// run-time-length attribute vectors with negative entries (as_static / map_to_device on HIP and SYCL must keep the sign)
+C13_CASE(reduce_add_axes_vector, C13_DTYPES_ALL, 7, { auto s = shape_nd(d, 0); if (s.size() < 2) s.push_back(2); auto a = make_operand<T>(s, r, 0); int R = (int)s.size();
+    int a0 = (int)dim_at(d, 5, 0, R - 1); int a1 = (a0 + 1 + (int)dim_at(d, 6, 0, R - 2)) % R; std::vector<int> axes{(dim_at(d, 5, 0, 23) & 1) ? a0 - R : a0, (dim_at(d, 6, 0, 23) & 1) ? a1 - R : a1};
+    auto v = view::reduce_add(a, axes); EVAL(v); })
+C13_CASE(reduce_max_axes_vector_keepdims, C13_DTYPES_ALL, 6, { auto s = shape_nd(d, 0); auto a = make_operand<T>(s, r, 0); int R = (int)s.size(); int a0 = (int)dim_at(d, 5, 0, R - 1); std::vector<int> axes{a0 - R};
+    auto v = view::reduce_maximum(a, axes, nm::None, nm::None, nm::True); EVAL(v); })
+C13_CASE(sum_axes_vector, C13_DTYPES_ALL, 6, { auto s = shape_nd(d, 0); auto a = make_operand<T>(s, r, 0); int R = (int)s.size(); std::vector<int> axes{-1}; if (R > 1 && (dim_at(d, 5, 0, 23) & 1)) axes.push_back(0); auto v = view::sum(a, axes); EVAL(v); })
 C13_CASE(max_pool2d, C13_DTYPES_FLOAT, 4, { Shape s{1, 1, (size_t)dim_at(d, 0, 2, 6), (size_t)dim_at(d, 1, 2, 6)}; auto a = make_operand<T>(s, r, 1); nmtools_array<int, 2> k{2, 2}; nmtools_array<int, 2> st{2, 2}; auto v = view::max_pool2d(a, k, st, nm::True); EVAL(v); })
 C13_CASE(avg_pool2d, C13_DTYPES_FLOAT, 4, { Shape s{1, 1, (size_t)dim_at(d, 0, 2, 6), (size_t)dim_at(d, 1, 2, 6)}; auto a = make_operand<T>(s, r, 1); nmtools_array<int, 2> k{2, 2}; nmtools_array<int, 2> st{2, 2}; auto v = view::avg_pool2d(a, k, st, nm::True); EVAL(v); })
 
